@@ -277,7 +277,9 @@ class EvolvableCNN(EvolvableModule):
         self.init_layers = init_layers
         self.sample_input = sample_input
         self.name = name
-        self.mut_kernel_size = MutableKernelSizes(kernel_size, block_type, sample_input)
+        self.mut_kernel_size = MutableKernelSizes(
+            list(kernel_size), block_type, sample_input
+        )
 
         self.model = self.create_cnn(
             in_channels=input_shape[0],
